@@ -26,6 +26,9 @@ def main(tier):
     for shp in shapes:
         sk = "nr=%d ntheta=%d nsc=%d DirBC=%s" % shp
         regs, notes, S = eff_runs.run_shape(prog, *shp)
+        for qn, f in getattr(S.dom, "visited", {}).items():
+            if not qn.startswith(("std::", "__gnu")):
+                ck.analysed(f)
         for label, r in regs:
             n += 1
             key = "%s @%s %s" % (label, r.site, sk)
